@@ -3,7 +3,7 @@ C05 — Number values behave as the real numbers they denote.
 
 Space: all ordered pairs over a pool of values of the five numeric types
 (every encoding (s, c, exp) in a small box as RealFloat and as Float, special
-Floats, ints, Python floats, Fractions) x operators; plus all unary
+Floats, Floats carrying the context tag of four formats with digits inside and outside that format, ints, Python floats, Fractions) x operators; plus all unary
 observations on every pool value.  Oracle: the denotation homomorphism into
 mc.model.xreal.X (exact rationals + IEEE rules for specials).
 
@@ -25,7 +25,8 @@ from ..engine.runner import BaseCheck, ShardResult
 from ..engine.adapt import to_x, show
 from ..model.xreal import X
 
-from fpy2.number import Float, RealFloat
+from fpy2.number import Float, RealFloat, IEEEContext, MPFloatContext, RM
+import fpy2 as _fp
 
 NOT_OFFERED = (TypeError, NotImplementedError)
 
@@ -38,6 +39,25 @@ def _is_not_offered(e: BaseException) -> bool:
     if isinstance(e, RuntimeError) and 'do not call directly' in str(e):
         return True
     return False
+
+
+def _tags():
+    """Ordinary values rounded under four contexts: a Float built from one of them with `x=` keeps its
+    context tag whatever digits it is given, and the tag must not change what the value denotes."""
+    three = RealFloat(False, 0, 3)
+    return {'FP64': _fp.FP64.round(three), 'RTZ64': IEEEContext(11, 64, RM.RTZ).round(three),
+            'FP16': IEEEContext(5, 16, RM.RNE).round(three), 'MP3': MPFloatContext(3, RM.RNE).round(three)}
+
+
+TAG = _tags()
+
+
+def _is_pow2(q: Fraction) -> bool:
+    q = abs(q)
+    if q == 0:
+        return False
+    k = q.numerator if q.denominator == 1 else q.denominator if q.numerator == 1 else 0
+    return k > 0 and k & (k - 1) == 0
 
 
 def build_pool(tier: str):
@@ -59,6 +79,12 @@ def build_pool(tier: str):
         pool.append(('RealFloat', f'RealFloat({s},-70,{2**70+1})', RealFloat(s, -70, 2 ** 70 + 1)))
         pool.append(('Float', f'Float({s},60,1)', Float(s, 60, 1)))
         pool.append(('Float', f'Float({s},-1080,3)', Float(s, -1080, 3)))
+    # context-tagged Floats (the tag is part of the encoding): digits inside and outside the tagging format
+    for tg in TAG:
+        for args in ('', f', c={2 ** 53 + 1}, exp=0', ', exp=2000', ', c=1, exp=-1075', ', c=5, exp=-3',
+                     ', s=True, c=7, exp=-1', f', c={2 ** 24 + 1}, exp=1000'):
+            text = f"Float(x=TAG['{tg}']{args})"
+            pool.append(('Float', text, eval(text, {'Float': Float, 'TAG': TAG})))
     ints = list(range(-9, 10)) + [12, -12, 16, -17, 2 ** 60, -2 ** 60, 2 ** 53 + 1]
     # clusters around the limits of a double: conversions through float() are wrong exactly here
     for base in (2 ** 53, 2 ** 64, 2 ** 1024):
@@ -116,7 +142,8 @@ def _cmp_expected(op, c):
 class Check(BaseCheck):
     pid = 'C05'
     rule = ('all ordered pairs (a, b) of pool values where at least one is Float/RealFloat, x {+,-,*,6 comparisons,'
-            ' hash-consistency}; all unary observations on every Float/RealFloat pool value. nontrivial = pair of '
+            ' compare(), hash-consistency}; all unary observations on every Float/RealFloat pool value; every '
+            'from_int/from_float/from_rational constructor on every native pool value. nontrivial = pair of '
             'different types or different encodings whose result is not one of the operands')
     assumptions = ['Python int/Fraction arithmetic is exact',
                    'type mixes that raise TypeError/ValueError(dyadic)/NotImplementedError are "not offered", not judged']
@@ -131,7 +158,7 @@ class Check(BaseCheck):
 
     def shards(self):
         n = len(self.pool)
-        return [('pairs', i, 64) for i in range(64)] + [('unary', 0, 1)]
+        return [('pairs', i, 64) for i in range(64)] + [('unary', 0, 1), ('from', 0, 1)]
 
     # ---- pair checks --------------------------------------------------
     def check_pair(self, r: ShardResult, i: int, j: int):
@@ -186,6 +213,25 @@ class Check(BaseCheck):
                 r.violate({'op': op, 'types': f'{ta},{tb}', 'kind': 'truth'},
                           {'kind': 'cmp', 'op': op, 'a': ca, 'b': cb},
                           f'{ca} {op} {cb} = {got!r}; model {want} (values {xa} vs {xb})')
+        # the compare() method: an Ordering (LESS/EQUAL/GREATER) of the denoted values, None iff unordered
+        if hasattr(type(a), 'compare'):
+            r.count('evaluations')
+            try:
+                got = a.compare(b)
+            except Exception as e:
+                if _is_not_offered(e):
+                    r.outcomes[f'compare:{ta},{tb}:not-offered'] += 1
+                else:
+                    r.violate({'op': 'compare', 'types': f'{ta},{tb}', 'kind': 'raises ' + type(e).__name__},
+                              {'kind': 'cmp', 'op': 'compare', 'a': ca, 'b': cb},
+                              f'{ca}.compare({cb}) raised {e!r}; model {c}')
+            else:
+                gv = None if got is None else int(got.value) if hasattr(got, 'value') else int(got)
+                r.outcomes[f'compare:{c}'] += 1
+                if gv != c:
+                    r.violate({'op': 'compare', 'types': f'{ta},{tb}', 'kind': 'truth'},
+                              {'kind': 'cmp', 'op': 'compare', 'a': ca, 'b': cb},
+                              f'{ca}.compare({cb}) = {got!r}; model {c} (values {xa} vs {xb})')
         # equal values hash equally (== as implemented; NaN never equal)
         r.count('evaluations')
         try:
@@ -295,8 +341,65 @@ class Check(BaseCheck):
                     ok = False
                 if ok:
                     bad('float', f'float({ctext}) raised although {xa} is exactly a double')
+        # integer roundings (math.trunc/floor/ceil, round): the exact integer function of the denoted value;
+        # no int denotes an infinity or NaN, so those have to raise
+        for nm, fn, model in (('trunc', math.trunc, math.trunc), ('floor', math.floor, math.floor),
+                              ('ceil', math.ceil, math.ceil), ('round', round, round)):
+            r.count('evaluations')
+            try:
+                iv = fn(a)
+            except (ValueError, OverflowError, TypeError, NotImplementedError):
+                if xa.kind == 'fin':
+                    bad(nm, f'{nm}({ctext}) raised for the finite value {xa}')
+                r.outcomes[f'{nm}:raises'] += 1
+                continue
+            except Exception as e:
+                bad(nm, f'{nm}({ctext}) raised {e!r}')
+                continue
+            r.outcomes[f'{nm}:ok'] += 1
+            if xa.kind != 'fin':
+                bad(nm, f'{nm}({ctext}) = {iv!r}; operand denotes {xa}')
+            elif type(iv) is not int or iv != model(xa.q):
+                bad(nm, f'{nm}({ctext}) = {iv!r}; model {model(xa.q)} (value {xa})')
+        # sign / zero predicates (NaN is left open; an infinity has its sign and is not zero)
+        if xa.kind in ('fin', 'inf'):
+            isz = xa.kind == 'fin' and xa.q == 0
+            pos = (xa.kind == 'inf' and not xa.s) or (xa.kind == 'fin' and xa.q > 0)
+            neg = (xa.kind == 'inf' and xa.s) or (xa.kind == 'fin' and xa.q < 0)
+            preds = [('is_zero', isz), ('is_positive', pos), ('is_negative', neg)]
+            if xa.kind == 'fin':
+                preds.append(('is_nonzero', not isz))
+                preds.append(('is_power_of_two', _is_pow2(xa.q)))
+            for nm, want in preds:
+                if not hasattr(type(a), nm):
+                    continue
+                r.count('evaluations')
+                try:
+                    got = getattr(a, nm)()
+                except Exception as e:
+                    bad(nm, f'{ctext}.{nm}() raised {e!r}')
+                    continue
+                r.outcomes[f'{nm}:{want}'] += 1
+                if got is not want:
+                    bad(nm, f'{ctext}.{nm}() = {got!r}; value {xa}')
         if xa.kind != 'fin':
             return
+        # digit accessors: m * 2^exp is the value; 2^e <= |x| < 2^(e+1); p digits; n = exp - 1
+        r.count('evaluations')
+        try:
+            m_, exp_, p_, n_ = a.m, a.exp, a.p, a.n
+            if Fraction(m_) * Fraction(2) ** exp_ != xa.q:
+                bad('m', f'{ctext}: m={m_}, exp={exp_} denote {Fraction(m_) * Fraction(2) ** exp_}; value {xa}')
+            if n_ != exp_ - 1:
+                bad('n', f'{ctext}: n={n_} but exp={exp_}')
+            if not (abs(m_) < 2 ** p_ and (p_ == 0 or abs(m_) >= 2 ** (p_ - 1))):
+                bad('p', f'{ctext}: p={p_} but |m|={abs(m_)}')
+            if xa.q != 0:
+                e_ = a.e
+                if not (Fraction(2) ** e_ <= abs(xa.q) < Fraction(2) ** (e_ + 1)):
+                    bad('e', f'{ctext}: e={e_} but |value|={abs(xa.q)}')
+        except Exception as e:
+            bad('accessors', f'{ctext}: m/exp/p/n/e raised {e!r}')
         # is_integer
         r.count('evaluations')
         if a.is_integer() != (xa.q.denominator == 1):
@@ -363,6 +466,44 @@ class Check(BaseCheck):
                             bad('normalize', f'{ctext}.normalize({p},{nn}) has exp={y.exp}, p={y.p}',
                                 {'p': p, 'n': nn})
 
+    # ---- conversions from native types ---------------------------------
+    def check_from(self, r: ShardResult, i: int):
+        t, ctext, v = self.pool[i]
+        if t not in ('int', 'float', 'Fraction'):
+            return
+        xv = to_x(v)
+        for T in (RealFloat, Float):
+            for nm in ('from_int', 'from_float', 'from_rational'):
+                fn = getattr(T, nm, None)
+                if fn is None:
+                    continue
+                r.count('evaluations')
+                # the constructor that is documented for this native type has to accept every value the
+                # target type can denote; anything else may be refused
+                must = ((nm == 'from_int' and t == 'int')
+                        or (nm == 'from_float' and t == 'float' and (T is Float or xv.kind == 'fin'))
+                        or (nm == 'from_rational' and t == 'Fraction' and _is_pow2(Fraction(1, v.denominator))))
+                sig = {'op': nm, 'type': T.__name__, 'from': t, 'class': xv.kind if not xv.iszero else 'zero'}
+                case = {'kind': 'from', 'op': nm, 'T': T.__name__, 'a': ctext}
+                try:
+                    got = fn(v)
+                except Exception as e:
+                    r.outcomes[f'{nm}:{t}:raises'] += 1
+                    if must or not (_is_not_offered(e) or isinstance(e, ValueError)):
+                        r.violate({**sig, 'kind': 'raises'}, case, f'{T.__name__}.{nm}({ctext}) raised {e!r}')
+                    continue
+                r.outcomes[f'{nm}:{t}:ok'] += 1
+                if xv.kind == 'fin' and not xv.iszero:
+                    r.count('nontrivial')
+                try:
+                    xg = to_x(got)
+                except Exception:
+                    r.violate({**sig, 'kind': 'result-type'}, case, f'{T.__name__}.{nm}({ctext}) returned {got!r}')
+                    continue
+                if not isinstance(got, T) or not xg.same(xv, zero_sign=True):
+                    r.violate({**sig, 'kind': 'value'}, case,
+                              f'{T.__name__}.{nm}({ctext}) = {show(got)} denotes {xg}; operand denotes {xv}')
+
     def run_shard(self, shard) -> ShardResult:
         r = ShardResult()
         kind, k, m = shard
@@ -375,17 +516,23 @@ class Check(BaseCheck):
                         r.count('states')
             if k == 0:
                 r.sample({'a': self.pool[3][1], 'b': self.pool[-1][1], 'ops': list(BINOPS) + list(CMPOPS) + ['hash']})
+        elif kind == 'from':
+            for i in range(n):
+                self.check_from(r, i)
+                r.count('states')
+            r.sample({'from native': self.pool[-1][1], 'ops': 'RealFloat/Float .from_int .from_float .from_rational'})
         else:
             for i in range(n):
                 self.check_unary(r, i)
                 r.count('states')
             r.sample({'unary on': self.pool[5][1],
                       'ops': 'neg pos abs pow0-3 as_rational int float is_integer split bit '
-                             'is_more_significant normalize'})
+                             'is_more_significant normalize trunc floor ceil round is_zero is_nonzero is_positive '
+                             'is_negative is_power_of_two m/exp/p/n/e'})
         return r
 
     def replay(self, case):
-        env = {'Float': Float, 'RealFloat': RealFloat, 'Fraction': Fraction}
+        env = {'Float': Float, 'RealFloat': RealFloat, 'Fraction': Fraction, 'TAG': TAG}
         by_text = {c: i for i, (_, c, _) in enumerate(self.pool)}
         r = ShardResult()
         if case['kind'] in ('bin', 'cmp', 'hash'):
@@ -397,6 +544,13 @@ class Check(BaseCheck):
                     t = type(v).__name__
                     self.pool.append((t, c, v))
             self.check_pair(r, by_text[case['a']], by_text[case['b']])
+        elif case['kind'] == 'from':
+            c = case['a']
+            if c not in by_text:
+                by_text[c] = len(self.pool)
+                v = float(c) if c in ('nan', 'inf', '-inf') else eval(c, env)
+                self.pool.append((type(v).__name__, c, v))
+            self.check_from(r, by_text[c])
         else:
             c = case['a']
             if c not in by_text:
